@@ -269,7 +269,6 @@ func (b Builder) abiTuples(t *types.Tuple, name string) llvm.Value {
 
 func (b Builder) abiExtendedFields(t types.Type, name string) (fields []llvm.Value) {
 	prog := b.Prog
-	pkg := b.Pkg
 	switch t := types.Unalias(t).(type) {
 	case *types.Basic:
 	case *types.Pointer:
@@ -344,8 +343,19 @@ func (b Builder) abiExtendedFields(t types.Type, name string) (fields []llvm.Val
 		}
 	case *types.Interface:
 		name, _ = prog.abi.TypeName(t)
+		// PkgPath_ must be a function of the type (the descriptor is one
+		// weak_odr symbol program-wide), not of the package being compiled.
+		var pkgPath string
+		for i, n := 0, t.NumMethods(); i < n; i++ {
+			if m := t.Method(i); !m.Exported() {
+				if mpkg := m.Pkg(); mpkg != nil {
+					pkgPath = mpkg.Path()
+					break
+				}
+			}
+		}
 		fields = []llvm.Value{
-			b.Str(pkg.Path()).impl,
+			b.Str(pkgPath).impl,
 			b.abiInterfaceImethods(t, name+"$imethods"),
 		}
 	case *types.Named:
